@@ -230,6 +230,9 @@ class Interp:
             return x
         if z3.is_bv(x):
             return z3.BV2Int(x)
+        if z3.is_fp(x):
+            # float32 -> int32: truncation toward zero, as a signed 32-bit vector (out-of-range values are unspecified in z3 as in XLA)
+            return z3.fpToSBV(z3.RTZ(), x, z3.BitVecSort(32))
         if z3.is_real(x):
             # XLA converts float -> integer by truncation toward zero (values outside the integer range are outside the claim)
             return z3.If(x >= 0, z3.ToInt(x), -z3.ToInt(-x))
